@@ -144,6 +144,52 @@ impl Prop for C01 {
             let g = gensrc::gen_ecl10(rng, game);
             out.push(Case::search(Sexp::app("rt", vec![Sexp::atom(g.format.name()), Sexp::atom(format!("{}", g.game)), Sexp::list(vec![]), Sexp::int(rng.below(32) as i64), Sexp::int(99), Sexp::str(g.text.clone())])).tag("generated-stack-ecl"));
         }
+        // conditional jumps with every operand shape (register / literal on either side, every comparison, int and float,
+        // forward and backward, also over a time label): the operand order in the binary is the order in the source
+        for k in 0..120 * scale {
+            let game = *rng.pick(&[truth::Game::Th10, truth::Game::Th11, truth::Game::Th12, truth::Game::Th13, truth::Game::Th14, truth::Game::Th16, truth::Game::Th17]);
+            let mut body = String::new();
+            let n = 1 + rng.below(4);
+            if rng.chance(1, 3) { body.push_str("top:\n    ins_1();\n"); }
+            for j in 0..n {
+                let float = rng.chance(1, 3);
+                let reg = |rng: &mut Rng| if float { format!("%REG[{}]", 10004 + rng.below(4)) } else { format!("$REG[{}]", 10000 + rng.below(4)) };
+                let lit = |rng: &mut Rng| if float { format!("{}.5", rng.below(9)) } else { format!("{}", 1 + rng.below(9)) };
+                // shapes: lit-reg (the one sugar likes to turn around), reg-lit, reg-reg
+                let (a, b) = match (k + j) % 4 { 0 | 1 => (lit(rng), reg(rng)), 2 => (reg(rng), lit(rng)), _ => (reg(rng), reg(rng)) };
+                let op = *rng.pick(&["==", "!=", "<", "<=", ">", ">="]);
+                let target = if body.contains("top:") && rng.chance(1, 4) { "top" } else { "done" };
+                body.push_str(&format!("    if ({a} {op} {b}) goto {target};\n    ins_2();\n"));
+                if rng.chance(1, 4) { body.push_str(&format!("+{}:\n", 1 + rng.below(20))); }
+            }
+            body.push_str("done:\n    ins_1();\n");
+            let mut next_id = 0u32;
+            let text = format!("{}script script0 {{\n{body}}}\n", gensrc::anm_entry_text(rng, game, 0, 1, 0, true, &mut next_id));
+            for bits in [0u32, 8, 1 << rng.below(5)] {
+                out.push(Case::search(Sexp::app("rt", vec![Sexp::atom("anm"), Sexp::atom(format!("{game}")), Sexp::list(vec![]), Sexp::int(bits as i64), Sexp::int(*rng.pick(&[99i64, 40, 20])), Sexp::str(text.clone())])).tag("cond-jump-operand-shapes"));
+            }
+        }
+        // jumps out of a loop to a label behind the loop: directly behind it (a `break`), behind a time label, behind an
+        // instruction; conditional and unconditional; the loop body with and without time labels of its own
+        for k in 0..90 * scale {
+            let game = *rng.pick(&[truth::Game::Th10, truth::Game::Th12, truth::Game::Th14, truth::Game::Th17]);
+            let mut body = String::new();
+            if rng.chance(1, 3) { body.push_str("    ins_1();\n"); }
+            let head = match rng.below(3) { 0 => "loop".to_string(), 1 => format!("times({})", 2 + rng.below(4)), _ => "while ($REG[10001] > 0)".to_string() };
+            body.push_str(&format!("    {head} {{\n        ins_2();\n"));
+            body.push_str(&if rng.chance(1, 2) { "        goto end;\n".to_string() } else { format!("        if ($REG[10000] == {}) goto end;\n", rng.below(5)) });
+            if rng.chance(1, 2) { body.push_str(&format!("+{}:\n", 1 + rng.below(9))); }
+            body.push_str("        ins_1();\n");
+            if head.starts_with("while") { body.push_str("        $REG[10001] = $REG[10001] - 1;\n"); }
+            body.push_str("    }\n");
+            match k % 3 { 0 => {}, 1 => body.push_str(&format!("+{}:\n", 1 + rng.below(20))), _ => body.push_str("    ins_2();\n") }
+            body.push_str("end:\n    ins_1();\n");
+            let mut next_id = 0u32;
+            let text = format!("{}script script0 {{\n{body}}}\n", gensrc::anm_entry_text(rng, game, 0, 1, 0, true, &mut next_id));
+            for bits in [0u32, 1 << rng.below(5)] {
+                out.push(Case::search(Sexp::app("rt", vec![Sexp::atom("anm"), Sexp::atom(format!("{game}")), Sexp::list(vec![]), Sexp::int(bits as i64), Sexp::int(99), Sexp::str(text.clone())])).tag("loop-exit-label-placement"));
+            }
+        }
         // intrinsic instructions spelled as raw calls with arbitrary operands (the decompiler's sugar must recompile to them)
         for _ in 0..300 * scale {
             let g = gensrc::gen_raw_intrinsics(rng);
